@@ -272,7 +272,7 @@ func TestC17(t *testing.T) {
 		}
 	}
 	var lastGen *gen
-	var probes, tallies [][2]string
+	var probes, tallies, vlists [][2]string
 	executions := 0
 	for hi := 0; hi < nHist; hi++ {
 		hseed := seed*1000 + int64(hi)
@@ -282,6 +282,7 @@ func TestC17(t *testing.T) {
 		lastGen = g
 		probes = append(probes, g.probes...)
 		tallies = append(tallies, g.tallies...)
+		vlists = append(vlists, g.vlists...)
 		ref := []string{fmt.Sprintf("h=0 apphash=%x", g.c.InitResp.AppHash)}
 		okBlocks := 0
 		for i, o := range g.obs {
@@ -397,6 +398,12 @@ func TestC17(t *testing.T) {
 	for _, pr := range tallies {
 		out.Emit(pr[0], pr[1])
 		out.Nontrivial("tally:" + pr[1][:min(len(pr[1]), 10)])
+	}
+	// validatorList(missed): the real precompile's output must meet the contract of a sort for the regenerated comparator
+	out.Reset("models-validatorlist")
+	for _, pr := range vlists {
+		out.Emit(pr[0], pr[1])
+		out.Nontrivial("validatorlist:" + strconv.Itoa(len(pr[0])/200))
 	}
 	modelOps(t, out, seed, lastGen)
 }
